@@ -12,7 +12,7 @@ RULE = ("hdk.derive(seed, path) events compared with an independent BIP-32 CKDpr
 REQUIRED = (["depth-%d" % d for d in range(1, 9)] + ["all-hardened", "all-normal", "normal-below-hardened", "hardened-below-normal",
             "index-0", "index-1", "index-2^31-1", "index-byte-distinct", "seedlen-16", "seedlen-32", "seedlen-64", "seedlen-other",
             "bip44-shape"])
-SEED_LENS = [0, 1, 15, 16, 17, 31, 32, 33, 63, 64, 65, 128, 129, 300]
+SEED_LENS = [0, 1, 15, 16, 17, 31, 32, 33, 63, 64, 65, 127, 128, 129, 255, 256, 257, 300, 511, 512, 513, 1000, 4096, 65536]
 IDX = [0, 1, 2, 2**31 - 1, 2**31 - 2, 0x01020304, 0x7fEDCBA9, 0x00ff00ff, 0x7f000001, 255, 256, 65535, 65536, 2**24, 44, 60]
 
 
